@@ -1952,7 +1952,8 @@ LEVEL_TEXT = ('Machine-checked Coq theorems about an executable model of the rea
               'C01_bytes_roundtrip), and any characters read() decodes as SJSON give objects that are written and read back as exactly '
               'themselves (C01_sjson_reader_fixpoint, no domain condition); mode "a": which plugin function write() calls for each format, the appended file is old + new '
               'characters, and a Stockholm file appended to reads back as its first alignment only, i.e. "append = concatenation" is '
-              'a FASTA fact as documented (C01_append_dispatch, C01_append_file, C01_stk_append_reads_first); BioSeq(data, id, meta, '
+              'a FASTA fact as documented (C01_append_dispatch, C01_append_file, C01_stk_append_reads_first), an SJSON file appended to is '
+              'unreadable (C01_sjson_append_unreadable); BioSeq(data, id, meta, '
               'type): data upper-cased, type given or inferred from the upper-cased letters, AssertionError for other types, id '
               'precedence argument > source object / meta mapping > default, copy of a constructed sequence is itself, an explicit '
               'type is not copied (C01_bioseq_init_plain, C01_bioseq_init_data_type, C01_bioseq_init_id, C01_bioseq_init_copy, '
